@@ -49,36 +49,103 @@ func init() {
 // itself). Fields that are not stored are zero. ok is false if v is not such a
 // literal or a field is stored with a non-constant.
 func complitInts(v ssa.Value) (map[string]int64, bool) {
-	var al *ssa.Alloc
+	var cell ssa.Value
 	switch x := v.(type) {
 	case *ssa.Alloc:
-		al = x
+		cell = x
+	case *ssa.Global:
+		cell = x
 	case *ssa.UnOp:
 		if x.Op == token.MUL {
-			al, _ = x.X.(*ssa.Alloc)
+			switch y := x.X.(type) {
+			case *ssa.Alloc:
+				cell = y
+			case *ssa.Global:
+				cell = y
+			}
 		}
 	}
-	if al == nil || al.Comment != "complit" {
+	if cell == nil {
 		return nil, false
 	}
 	out := map[string]int64{}
-	for _, r := range *al.Referrers() {
-		fa, ok := r.(*ssa.FieldAddr)
-		if !ok {
-			continue
+	// the field stores into the cell: for a local, its referrers; for a package-level variable, every
+	// store in its package (it must be written only by the package initialiser)
+	var fieldStores []*ssa.Store
+	switch cl := cell.(type) {
+	case *ssa.Alloc:
+		for _, r := range *cl.Referrers() {
+			switch r := r.(type) {
+			case *ssa.Store:
+				if r.Addr == ssa.Value(cl) {
+					// a whole value is copied in: only fine if that value is itself such a literal
+					return complitInts(r.Val)
+				}
+			case *ssa.FieldAddr:
+				for _, rr := range *r.Referrers() {
+					if st, ok := rr.(*ssa.Store); ok && st.Addr == ssa.Value(r) {
+						fieldStores = append(fieldStores, st)
+					}
+				}
+			}
 		}
-		_, f := FieldOf(fa.X.Type(), fa.Field)
-		for _, rr := range *fa.Referrers() {
-			st, ok := rr.(*ssa.Store)
-			if !ok || st.Addr != fa {
+	case *ssa.Global:
+		if cl.Pkg == nil {
+			return nil, false
+		}
+		var whole *ssa.Store
+		defer func() { _ = whole }()
+		for _, m := range cl.Pkg.Members {
+			fn, ok := m.(*ssa.Function)
+			if !ok {
 				continue
 			}
-			k, isK := ConstInt(st.Val)
-			if !isK {
+			for _, f := range DeepFuncs(fn, 0) {
+				bad := false
+				Instrs(f, false, func(in ssa.Instruction) {
+					st, ok := in.(*ssa.Store)
+					if !ok {
+						return
+					}
+					if st.Addr == ssa.Value(cl) {
+						if f.Name() == "init" && whole == nil {
+							whole = st // the initialiser: var x = T{…}
+						} else {
+							bad = true // assigned as a whole somewhere else
+						}
+					}
+					if fa, ok := st.Addr.(*ssa.FieldAddr); ok && fa.X == ssa.Value(cl) {
+						if f.Name() != "init" {
+							bad = true // modified after initialisation
+						}
+						fieldStores = append(fieldStores, st)
+					}
+				})
+				if bad {
+					return nil, false
+				}
+			}
+		}
+		if whole != nil {
+			if len(fieldStores) > 0 {
 				return nil, false
 			}
-			out[f.Name()] = k
+			return complitInts(whole.Val)
 		}
+		if len(fieldStores) == 0 {
+			return nil, false
+		}
+	}
+	seen := map[string]bool{}
+	for _, st := range fieldStores {
+		fa := st.Addr.(*ssa.FieldAddr)
+		_, f := FieldOf(fa.X.Type(), fa.Field)
+		k, isK := ConstInt(st.Val)
+		if !isK || f == nil || seen[f.Name()] {
+			return nil, false // not a constant, or assigned more than once
+		}
+		seen[f.Name()] = true
+		out[f.Name()] = k
 	}
 	return out, true
 }
@@ -157,6 +224,46 @@ func runC15(c *Ctx) {
 			})
 			c.Check(FuncKey(nm)+"::"+f.Name()+"-zero-test-exists", st.Pos(), len(zero) > 0, "the replacement is driven by a test of the component against the zero value")
 		})
+		// the same written with locals: inner, outer := v.Inner, v.Outer; if inner == 0 { inner = top } …; return ValueNilness{inner, outer}
+		for _, r := range Returns(nm) {
+			u, ok := r.Results[0].(*ssa.UnOp)
+			if !ok {
+				continue
+			}
+			al, ok := u.X.(*ssa.Alloc)
+			if !ok {
+				continue
+			}
+			for _, ref := range *al.Referrers() {
+				fa, ok := ref.(*ssa.FieldAddr)
+				if !ok {
+					continue
+				}
+				_, f := FieldOf(fa.X.Type(), fa.Field)
+				for _, rr := range *fa.Referrers() {
+					st, ok := rr.(*ssa.Store)
+					if !ok || st.Addr != ssa.Value(fa) || f == nil {
+						continue
+					}
+					if _, isK := ConstInt(st.Val); isK {
+						continue // handled above
+					}
+					for x := range BackSlice(st.Val, SliceOpts{NoMemory: true}) {
+						k, isK := ConstInt(x)
+						if !isK {
+							continue
+						}
+						stores[f.Name()] = true
+						c.Check(FuncKey(nm)+"::"+f.Name()+"-missing-component-becomes-top", st.Pos(), k == top, "normalize may only replace a missing component by the absorbing element, never by a definite fact (stores %d)", k)
+						zero := EqEdges(nm, func(x, y ssa.Value) bool {
+							kk, ok := ConstInt(y)
+							return ok && kk == 0 && Derives(x, IsFieldOf("ValueNilness", f.Name()))
+						})
+						c.Check(FuncKey(nm)+"::"+f.Name()+"-zero-test-exists", st.Pos(), len(zero) > 0, "the replacement is driven by a test of the component against the zero value")
+					}
+				}
+			}
+		}
 		c.Check(FuncKey(nm)+"::both-components-normalised", nm.Pos(), stores["Inner"] && stores["Outer"], "both components are normalised")
 		// (c) (*Result).Nilness without a fact
 		rn := c.Func("analysis/facts/nilness", "(*Result).Nilness")
@@ -165,6 +272,19 @@ func runC15(c *Ctx) {
 			call, isCall := x.(*ssa.Call)
 			return ok && k == 0 && isCall && IsCallTo(call, "builtin.len")
 		})
+		for e := range LenZeroEdges(rn, func(v ssa.Value) bool { return true }) {
+			noFact[e] = true
+		}
+		for e := range CondEdges(rn, func(cond ssa.Value) (bool, bool) {
+			ex, ok := cond.(*ssa.Extract)
+			if !ok || ex.Index != 1 {
+				return false, false
+			}
+			l, ok := ex.Tuple.(*ssa.Lookup)
+			return ok && l.CommaOk, false // the key is absent: no fact either
+		}) {
+			noFact[e] = true
+		}
 		n = 0
 		for _, r := range Returns(rn) {
 			if ok, _ := MustPassEdges(rn, r, noFact); ok && len(noFact) > 0 {
@@ -241,12 +361,51 @@ func runC15(c *Ctx) {
 				return ok && strings.HasSuffix(ta.AssertedType.String(), "go/ir."+kind), true
 			})
 			found := false
-			for _, r := range Returns(get) {
-				if ok, _ := MustPassEdges(get, r, edges); ok && len(edges) > 0 {
-					found = true
-					isT, why := isTop(r.Results[0], top)
-					c.Check(FuncKey(get)+"::"+kind+"-default-is-top", r.Pos(), isT, "a %s the analysis has no state for is an input of the function and may be anything (%s)", kind, why)
+			for e := range edges {
+				var succ *ssa.BasicBlock
+				for _, b := range get.Blocks {
+					if b.Index == e.Block {
+						succ = b.Succs[e.Succ]
+					}
 				}
+				if succ == nil {
+					continue
+				}
+				found = true
+				isRet := func(in ssa.Instruction) bool { _, ok := in.(*ssa.Return); return ok }
+				var bad *ssa.Return
+				why := ""
+				// every return that can be reached first from this edge must be top
+				t, _ := PathAvoiding(get, succ.Instrs[0], func(in ssa.Instruction) bool {
+					r, ok := in.(*ssa.Return)
+					if !ok {
+						return false
+					}
+					isT, w := isTop(r.Results[0], top)
+					if !isT {
+						bad, why = r, w
+					}
+					return !isT
+				}, func(in ssa.Instruction) bool {
+					r, ok := in.(*ssa.Return)
+					if !ok {
+						return false
+					}
+					isT, _ := isTop(r.Results[0], top)
+					return isT
+				}, nil)
+				if r0, ok := succ.Instrs[0].(*ssa.Return); ok && isRet(r0) {
+					if isT, w := isTop(r0.Results[0], top); !isT {
+						t, bad, why = r0, r0, w
+					} else {
+						t = nil
+					}
+				}
+				pos := get.Pos()
+				if bad != nil {
+					pos = bad.Pos()
+				}
+				c.Check(FuncKey(get)+"::"+kind+"-default-is-top", pos, t == nil, "a %s the analysis has no state for is an input of the function and may be anything (%s)", kind, why)
 			}
 			if !found {
 				c.Check(FuncKey(get)+"::"+kind+"-default-is-top", get.Pos(), false, "state.get no longer has a default for *ir.%s", kind)
@@ -322,6 +481,24 @@ func runC15(c *Ctx) {
 		// non-pointer results are NeverNil by type, in the summary
 		dns := c.Func("analysis/facts/nilness", "defaultNilnessForSignature")
 		usesDefault := len(CallsTo(dns, false, nilnessPkg+".defaultNilness")) > 0
+		if !usesDefault {
+			// inlined: under IsPointerLike(result type) the element stored is the absorbing element
+			ptrLike := CallTrueEdges(dns, func(call *ssa.Call) bool { return strings.HasSuffix(CalleeName(&call.Call), "typeutil.IsPointerLike") })
+			Instrs(dns, false, func(in ssa.Instruction) {
+				st, ok := in.(*ssa.Store)
+				if !ok {
+					return
+				}
+				if _, isIdx := st.Addr.(*ssa.IndexAddr); !isIdx {
+					return
+				}
+				if okp, _ := MustPassEdges(dns, st, ptrLike); okp && len(ptrLike) > 0 {
+					if isT, _ := isTop(st.Val, top); isT {
+						usesDefault = true
+					}
+				}
+			})
+		}
 		c.Check(FuncKey(dns)+"::per-result-default", dns.Pos(), usesDefault, "the signature default is the per-type default of every result")
 	})
 
@@ -334,41 +511,41 @@ func runC15(c *Ctx) {
 		}
 		never := constIntOf(c, "analysis/facts/nilness", "NeverNil")
 		always := constIntOf(c, "analysis/facts/nilness", "AlwaysNil")
-		var all []*ssa.Function
-		var walk func(f *ssa.Function)
-		walk = func(f *ssa.Function) {
-			all = append(all, f)
-			for _, a := range f.AnonFuncs {
-				walk(a)
-			}
-		}
-		walk(run)
+		all := DeepFuncs(run, 1)
 		n := 0
 		for _, f := range all {
-			for _, b := range f.Blocks {
-				iff, ok := b.Instrs[len(b.Instrs)-1].(*ssa.If)
-				if !ok {
+			isFact := func(v ssa.Value) bool { return Derives(v, IsCallResult(nilnessPkg+".Result.Nilness")) }
+			definite := IntCmpConstEdges(f, isFact, true, func(lo, hi int64) bool { return lo == hi && (lo == never || lo == always) })
+			tested := IntCmpConstEdges(f, isFact, true, func(lo, hi int64) bool { return true })
+			if len(tested) == 0 {
+				continue
+			}
+			// every report in this function is reached only over an edge on which the fact is exactly NeverNil (or AlwaysNil)
+			var factCalls []ssa.Instruction
+			for _, ci := range CallsTo(f, false, nilnessPkg+".Result.Nilness") {
+				factCalls = append(factCalls, ci)
+			}
+			for _, ci := range Calls(f, false) {
+				if !IsCallTo(ci, reportPkg+".Report") {
 					continue
 				}
-				cond, _ := StripNot(iff.Cond)
-				bo, ok := cond.(*ssa.BinOp)
-				if !ok {
-					continue
+				// only the reports that are based on a fact (they come after it was looked up)
+				based := false
+				for _, fc := range factCalls {
+					if InstrDominates(fc, ci) {
+						based = true
+					}
 				}
-				if !Derives(bo.X, IsCallResult(nilnessPkg+".Result.Nilness")) {
-					continue
-				}
-				k, isK := ConstInt(bo.Y)
-				if !isK {
+				if !based {
 					continue
 				}
 				n++
-				okCmp := bo.Op == token.EQL && (k == never || k == always)
-				c.Check(strings.TrimPrefix(FuncKey(run), Module+"/")+"::sa4023::tests-a-definite-fact#"+itoa(n), iff.Pos(), okCmp, "SA4023 may call a comparison with nil impossible only if the fact is exactly NeverNil (or AlwaysNil); testing '!= something' also fires on 'maybe' (compares with %d using %s)", k, bo.Op)
+				ok, p := MustPassEdges(f, ci, definite)
+				c.Check(strings.TrimPrefix(FuncKey(run), Module+"/")+"::sa4023::tests-a-definite-fact#"+itoa(n), ci.Pos(), ok && len(definite) > 0, "SA4023 may call a comparison with nil impossible only if the fact is exactly NeverNil (or AlwaysNil): the report must lie behind an edge that establishes that; a test that also lets 'maybe' through fires on values that can be nil; path: %s", PathString(f, p))
 			}
 		}
 		if n == 0 {
-			c.Undecided("SA4023 no longer branches on the result of (*nilness.Result).Nilness")
+			c.Undecided("SA4023 no longer branches on the result of (*nilness.Result).Nilness before reporting")
 		}
 	})
 	// R15.4: copy-on-write of the per-edge state. The transfer function is run
@@ -440,6 +617,27 @@ func runC15(c *Ctx) {
 						return true
 					}
 				}
+				// a helper method of the state that takes the private copy on every path (s.takeOwnership())
+				if ci, ok := in.(ssa.CallInstruction); ok {
+					h := ci.Common().StaticCallee()
+					if h != nil && h.Blocks != nil && h != fn && FuncPkgPath(h) == nilnessPkg && h.Signature.Recv() != nil && len(ci.Common().Args) > 0 && ci.Common().Args[0] == ssa.Value(fn.Params[0]) {
+						var hClones []ssa.Instruction
+						Instrs(h, false, func(x ssa.Instruction) {
+							st, ok := x.(*ssa.Store)
+							if !ok {
+								return
+							}
+							if fa, ok := st.Addr.(*ssa.FieldAddr); ok && isM(fa) && Derives(st.Val, IsCallResult("slices.Clone")) {
+								hClones = append(hClones, st)
+							}
+						})
+						for _, hc := range hClones {
+							if t, _ := PathAvoiding(h, nil, func(x ssa.Instruction) bool { _, isRet := x.(*ssa.Return); return isRet }, func(x ssa.Instruction) bool { return x == hc }, nil); t == nil {
+								return true
+							}
+						}
+					}
+				}
 				return false
 			}
 			for i, w := range writes {
@@ -465,6 +663,15 @@ func runC15(c *Ctx) {
 					}
 					return false
 				}, isClone, nil)
+				// the two stores are independent: a copy taken earlier in the very same block is as good
+				for _, x := range st.Block().Instrs {
+					if x == ssa.Instruction(st) {
+						break
+					}
+					if isClone(x) {
+						t = nil
+					}
+				}
 				c.Check(FuncKey(fn)+"::cloned-flag-implies-clone", st.Pos(), t == nil, "setting s.cloned promises that s.m is private from here on; every path from the flag to the next write or return must take the copy; path: %s", PathString(fn, path))
 			})
 		}
